@@ -103,7 +103,7 @@ CLAIMED = {
         category="exploration",
         text=("BOUNDED stand-in (never counted as proved): the real solver is run on a tiny NLO card pair with one threshold crossing with n_integration_cores in {2, 3, -1}, with every permutation of the three "
               "targets and with every non-empty proper subset of the targets (quick tier: a covering subset); for every target the operator and the integration error must be bitwise those of the reference run "
-              "(one worker, given order). The deductive neighbours are C02 (parts computed once, joined in path order) and C17 (couplings independent of the query history)."),
+              "(one worker, given order); a second card with the expanded scale variation (xif = 2) has a target exactly on a matching scale and one beyond it (both orders, each alone). The deductive neighbours are C02 (parts computed once, joined in path order) and C17 (couplings independent of the query history)."),
         note="Bounded: finite input set stated in bounded/C03_native.py; interpreted (non-JIT) kernels; no statement about other cards or machines with another CPU count.",
         technique="bounded stand-in for contract-based verification: deal run-time contracts around the real solver (labelled bounded, not proved)",
         design_ref="DESIGN.md section 2, C03",
@@ -179,8 +179,8 @@ CLAIMED = {
         text=("Exceptional postconditions of the real EKO.close / dump / __exit__, Builder.__exit__ / __post_init__ / build, Inventory.__setitem__ and InternalPaths.bootstrap, run unmodified over a "
               "ghost file system (POSIX call contracts, abstract contents): a whole 'new EKO' session (create, bootstrap, two operators, leave the context) and an 'edit' session are executed once per "
               "fault point -- EVERY disk-changing operation (18 resp. 9; pairs in the thorough tier) -- and fault-free. After any failure the archive path is absent / holds OLD completely or holds the "
-              "complete new archive, never an incomplete tar; a fault-free re-run on the same path succeeds; an exception inside the context leaves the archive untouched. One defect repaired by a fix "
-              "commit (close removed the archive before dumping)."),
+              "complete new archive, never an incomplete tar; a fault-free re-run on the same path succeeds; an exception OR an interruption (KeyboardInterrupt, SystemExit, GeneratorExit) inside the "
+              "context leaves the archive untouched, and an interruption arriving at any fault point leaves it absent / OLD or complete. One defect repaired by a fix commit (close removed the archive before dumping)."),
         note=COMMON_NOTE + "Relative to the assumed file-system call contracts of contracts/ghostfs.py; process crashes (no exception) and the individual computation steps of a real solve are not enumerated. The sessions are concrete, the contents abstract.",
         technique="contract-based verification of exceptional postconditions: exhaustive enumeration of the crash points of the real code over a ghost file system with assumed call contracts",
         design_ref="DESIGN.md section 2, C38",
@@ -270,7 +270,8 @@ CLAIMED = {
               "(2) Lagrange property of Area._compute_coefs on symbolic nodes for d <= 5 (6 thorough); (3) whole dispatcher on symbolic strictly increasing "
               "nodes (n <= 4 quick / 8 thorough, d <= 4, linear and log mode): partition of unity, Kronecker property, reproduction of monomials up to the "
               "degree, rows of get_interpolation, on every feasible evaluation path; (4) rejections; (5) re-interpolation to a grid of equal length "
-              "reproduces linear functions on every path including the shortcut (one defect repaired by a fix commit)."),
+              "reproduces linear functions on every path including the shortcut (one defect repaired by a fix commit); (6) the default N-space dispatcher (mode_N=True) evaluates in x-space "
+              "like the x-space one at every node and mid-point of a linear grid (d = 1..3) and keeps its N-space callable."),
         note=COMMON_NOTE + "Lemma: a polynomial of degree <= d with d+1 zeros vanishes. Assumed: ln increasing, np.unique sorts/dedups. Preconditions: node spacing > 1e-14 and evaluation points outside the 10-eps window below a node (float tolerance of evaluate_x, not modelled). Whole-dispatcher clauses shape-bounded.",
         technique="contract-based deductive verification: invariant cut + z3 LIA; symbolic execution with z3 path feasibility + exact normal form",
         design_ref="DESIGN.md section 2, C34",
